@@ -10,6 +10,7 @@ import (
 	"sort"
 	"strings"
 	"sync"
+	"sync/atomic"
 	"time"
 
 	"golang.org/x/tools/go/packages"
@@ -254,7 +255,7 @@ type UnitOpts struct {
 	ExtraEnsures  map[string]string // label -> spec text, added to the contract's ensures
 	SkipEnsures   map[string]bool
 	NameSuffix    string
-	Trace         bool // record call/store/alloc events for per-case obligations
+	Trace         bool      // record call/store/alloc events for per-case obligations
 	TypeRename    [2]string // resolve type names in contracts with this prefix replaced (contracts reused for a sibling package)
 	Setup         func(ex *Exec, fr *frame, st *State)
 	AtExit        func(ex *Exec, fr *frame, g string, st *State, res []Val)
@@ -576,7 +577,7 @@ func (ex *Exec) funcModKeysTop(fr *frame, keys map[string]bool) {
 
 // ---- queries ----
 
-// symbolsOf tokenises an SMT line into the declared symbols it mentions.
+// symbolsOf tokenises an SMT line into the declared symbols it mentions (cached; call under u.mu or before the parallel phase).
 func (u *Unit) symbolsOf(line string) []string {
 	if u.symCache == nil {
 		u.symCache = map[string][]string{}
@@ -584,6 +585,12 @@ func (u *Unit) symbolsOf(line string) []string {
 	if s, ok := u.symCache[line]; ok {
 		return s
 	}
+	out := u.symbolsOfNoCache(line)
+	u.symCache[line] = out
+	return out
+}
+
+func (u *Unit) symbolsOfNoCache(line string) []string {
 	var out []string
 	seen := map[string]bool{}
 	i := 0
@@ -617,34 +624,76 @@ func (u *Unit) symbolsOf(line string) []string {
 		}
 		i = j
 	}
-	u.symCache[line] = out
 	return out
 }
 
 // slice keeps the declarations and the facts relevant to the goal: a fact is relevant if it
 // mentions no array-sorted symbol at all, or an array-sorted symbol already relevant; a relevant
 // fact makes all its symbols relevant. Dropping facts only weakens the hypotheses (sound).
-func (u *Unit) slice(o *Obligation, loopLocal bool) []bool {
-	decls := u.U.decls[:o.NDecl]
-	keep := make([]bool, len(decls))
-	rel := map[string]bool{}
-	isArr := func(sym string) bool {
-		return strings.HasPrefix(u.U.declared[sym], "(Array")
+// declInfo: what slicing needs to know about one declaration, computed once per unit.
+type declInfo struct {
+	kind  int // 0 other, 1 define-fun / combo (defines name), 2 assert, 3 declare-fun, 4 declare-const
+	name  string
+	syms  []string
+	arrs  []string
+	fresh bool // mentions a fresh scalar constant (result/havoc) — set per symbol below
+}
+
+func (u *Unit) prepare() {
+	u.mu.Lock()
+	defer u.mu.Unlock()
+	if u.info != nil {
+		return
 	}
-	defBody := map[string]int{} // define-fun name -> decl index
-	combo := func(d string) bool {
-		return strings.HasPrefix(d, "(declare-const ") && strings.Contains(d, "\n(assert ")
-	}
+	decls := u.U.decls
+	info := make([]declInfo, len(decls))
+	isArr := func(sym string) bool { return strings.HasPrefix(u.U.declared[sym], "(Array") }
 	for i, d := range decls {
-		if strings.HasPrefix(d, "(define-fun ") {
-			name := splitTop(d[1 : len(d)-1])[1]
-			defBody[name] = i
-		} else if combo(d) {
+		di := &info[i]
+		combo := strings.HasPrefix(d, "(declare-const ") && strings.Contains(d, "\n(assert ")
+		switch {
+		case strings.HasPrefix(d, "(define-fun "):
+			di.kind, di.name = 1, splitTop(d[1 : len(d)-1])[1]
+		case combo:
 			first := d[:strings.Index(d, "\n")]
-			name := splitTop(first[1 : len(first)-1])[1]
-			defBody[name] = i
+			di.kind, di.name = 1, splitTop(first[1 : len(first)-1])[1]
+		case strings.HasPrefix(d, "(assert "):
+			di.kind = 2
+		case strings.HasPrefix(d, "(declare-fun "):
+			di.kind = 3
+		case strings.HasPrefix(d, "(declare-const "):
+			di.kind, di.name = 4, splitTop(d[1 : len(d)-1])[1]
+		}
+		di.syms = u.symbolsOf(d)
+		for _, sy := range di.syms {
+			if isArr(sy) {
+				di.arrs = append(di.arrs, sy)
+			}
 		}
 	}
+	u.freshScalar = map[string]bool{}
+	for sy := range u.U.consts {
+		if !isArr(sy) && !strings.HasPrefix(sy, "p$") && !strings.HasPrefix(sy, "next") && !strings.HasPrefix(sy, "str!") {
+			u.freshScalar[sy] = true
+		}
+	}
+	u.defAt = map[string]int{}
+	for i := range info {
+		if info[i].kind == 1 {
+			u.defAt[info[i].name] = i
+		}
+	}
+	u.info = info
+}
+
+// slice keeps the declarations and the facts relevant to the goal: a fact is relevant if it
+// mentions no array-sorted symbol at all, or an array-sorted symbol already relevant, or a relevant
+// fresh scalar; a relevant fact makes all its symbols relevant. Dropping facts only weakens the
+// hypotheses (sound). Read-only after prepare().
+func (u *Unit) slice(o *Obligation, loopLocal bool) []bool {
+	n := o.NDecl
+	keep := make([]bool, n)
+	rel := map[string]bool{}
 	var work []string
 	add := func(sym string) {
 		if !rel[sym] {
@@ -652,51 +701,38 @@ func (u *Unit) slice(o *Obligation, loopLocal bool) []bool {
 			work = append(work, sym)
 		}
 	}
-	for _, s := range u.symbolsOf(o.Guard + " " + o.Goal) {
+	for _, s := range u.symbolsOfNoCache(o.Guard + " " + o.Goal) {
 		add(s)
 	}
-	type factInfo struct {
-		idx  int
-		syms []string
-		arrs []string
-	}
-	var facts []factInfo
-	for i, d := range decls {
-		switch {
-		case combo(d):
-			// kept only through defBody when its symbol becomes relevant
-		case strings.HasPrefix(d, "(assert "):
+	var facts []int
+	for i := 0; i < n; i++ {
+		switch u.info[i].kind {
+		case 2:
 			if loopLocal && i >= o.SetupEnd && i < o.LoopFrom {
 				continue // facts about the state before the loop: the invariant summarises them
 			}
-			fi := factInfo{idx: i, syms: u.symbolsOf(d)}
-			for _, s := range fi.syms {
-				if isArr(s) {
-					fi.arrs = append(fi.arrs, s)
-				}
-			}
-			facts = append(facts, fi)
-		case strings.HasPrefix(d, "(declare-fun "):
+			facts = append(facts, i)
+		case 3:
 			keep[i] = true
 		}
 	}
 	for changed := true; changed; {
 		changed = false
-		// close under definitions
 		for len(work) > 0 {
 			s := work[len(work)-1]
 			work = work[:len(work)-1]
-			if di, ok := defBody[s]; ok && !keep[di] {
+			if di, ok := u.defAt[s]; ok && di < n && !keep[di] {
 				keep[di] = true
-				for _, t := range u.symbolsOf(decls[di]) {
+				for _, t := range u.info[di].syms {
 					add(t)
 				}
 			}
 		}
-		for _, f := range facts {
-			if keep[f.idx] {
+		for _, fi := range facts {
+			if keep[fi] {
 				continue
 			}
+			f := &u.info[fi]
 			relevant := len(f.arrs) == 0
 			for _, a := range f.arrs {
 				if rel[a] {
@@ -705,16 +741,15 @@ func (u *Unit) slice(o *Obligation, loopLocal bool) []bool {
 				}
 			}
 			if !relevant {
-				// a fact about a relevant fresh scalar (a call result, a havoced cell) is relevant whatever arrays it reads
 				for _, sy := range f.syms {
-					if rel[sy] && u.U.consts[sy] && !isArr(sy) && !strings.HasPrefix(sy, "p$") && !strings.HasPrefix(sy, "next") && !strings.HasPrefix(sy, "str!") {
+					if rel[sy] && u.freshScalar[sy] {
 						relevant = true
 						break
 					}
 				}
 			}
 			if relevant {
-				keep[f.idx] = true
+				keep[fi] = true
 				changed = true
 				for _, t := range f.syms {
 					add(t)
@@ -722,13 +757,9 @@ func (u *Unit) slice(o *Obligation, loopLocal bool) []bool {
 			}
 		}
 	}
-	// declarations of relevant constants
-	for i, d := range decls {
-		if strings.HasPrefix(d, "(declare-const ") && !combo(d) {
-			name := splitTop(d[1 : len(d)-1])[1]
-			if rel[name] {
-				keep[i] = true
-			}
+	for i := 0; i < n; i++ {
+		if u.info[i].kind == 4 && rel[u.info[i].name] {
+			keep[i] = true
 		}
 	}
 	return keep
@@ -736,8 +767,7 @@ func (u *Unit) slice(o *Obligation, loopLocal bool) []bool {
 
 // query renders the obligation; dialect "z3" uses lambda-defined arrays where available.
 func (u *Unit) query(o *Obligation, withModel bool, dialect string, loopLocal bool) string {
-	u.mu.Lock()
-	defer u.mu.Unlock()
+	u.prepare()
 	var b strings.Builder
 	b.WriteString("; unit " + u.Name + "\n; obligation " + o.Name + "\n")
 	if o.Src != "" {
@@ -762,6 +792,8 @@ func (u *Unit) query(o *Obligation, withModel bool, dialect string, loopLocal bo
 	return b.String()
 }
 
+var emitNanos int64
+
 type OblResult struct {
 	Obl     *Obligation
 	Unit    *Unit
@@ -778,6 +810,7 @@ type RunOpts struct {
 	OutDir   string
 	Parallel int
 	CrossAll bool
+	Known    map[string]bool // obligations recorded as known findings
 }
 
 func runObligations(units []*Unit, ro RunOpts) []*OblResult {
@@ -824,6 +857,8 @@ func runObligations(units []*Unit, ro RunOpts) []*OblResult {
 			file := filepath.Join(ro.OutDir, sanitize(j.o.Name)+".smt2")
 			r.File = file
 			emit := func(file string, loopLocal bool) (string, string, bool) {
+				t0 := time.Now()
+				defer func() { atomic.AddInt64(&emitNanos, int64(time.Since(t0))) }()
 				if err := writeFile(file, j.u.query(j.o, true, "generic", loopLocal)); err != nil {
 					r.Note = err.Error()
 					return "", "", false
@@ -840,16 +875,23 @@ func runObligations(units []*Unit, ro RunOpts) []*OblResult {
 				return file, zfile, true
 			}
 			// staged discharge: one fast solver first, then the race of all back ends
-			staged := func(f, z string, to int) SolverResult {
-				slots.acquire(1)
+			staged := func(f, z string, to int, retry bool) SolverResult {
 				q := to
 				if q > 2 {
 					q = 2
 				}
-				first := runSolvers(f, z, q, ro.Seed, []string{"z3-new"})
-				slots.release(1)
-				if first.Verdict != Unknown || to <= q {
-					return first
+				var first SolverResult
+				// units whose obligations the quick solver keeps missing go straight to the race
+				skip := atomic.LoadInt32(&j.u.stage1Miss) >= 2 && atomic.LoadInt32(&j.u.stage1Miss) > atomic.LoadInt32(&j.u.stage1Hit)
+				if !skip {
+					slots.acquire(1)
+					first = runSolvers(f, z, q, ro.Seed, []string{"z3-new"})
+					slots.release(1)
+					if first.Verdict != Unknown || to <= q {
+						atomic.AddInt32(&j.u.stage1Hit, 1)
+						return first
+					}
+					atomic.AddInt32(&j.u.stage1Miss, 1)
 				}
 				// the race of all back ends, then again under two other seeds: a query that is hard under one
 				// seed and easy under another must not raise an alarm
@@ -858,6 +900,9 @@ func runObligations(units []*Unit, ro RunOpts) []*OblResult {
 				for try, sd := range []int{ro.Seed, ro.Seed + 7, ro.Seed + 13} {
 					tt := to
 					if try > 0 {
+						if !retry {
+							break
+						}
 						tt = to / 2
 					}
 					slots.acquire(4)
@@ -887,11 +932,7 @@ func runObligations(units []*Unit, ro RunOpts) []*OblResult {
 				// first attempt: the loop body from its havoced state only (dropping facts is sound)
 				lf, lz, ok := emit(strings.TrimSuffix(file, ".smt2")+".loop.smt2", true)
 				if ok {
-					lt := ro.Timeout / 2
-					if lt < 3 {
-						lt = 3
-					}
-					lr := staged(lf, lz, lt)
+					lr := staged(lf, lz, 3, false) // a quick attempt only
 					if lr.Verdict == Unsat {
 						r.Res = lr
 						r.File = lf
@@ -904,7 +945,12 @@ func runObligations(units []*Unit, ro RunOpts) []*OblResult {
 			if !ok {
 				return
 			}
-			r.Res = staged(file, zfile, ro.Timeout)
+			if ro.Known[j.o.Name] {
+				// expected to stay undischarged (a recorded finding): one short race is enough
+				r.Res = staged(file, zfile, 5, false)
+			} else {
+				r.Res = staged(file, zfile, ro.Timeout, true)
+			}
 			r.OK = r.Res.Verdict == Unsat
 			if ro.CrossAll {
 				slots.acquire(4)
